@@ -3,6 +3,7 @@ package c14chainworld
 import (
 	"bytes"
 	"crypto/ecdsa"
+	"encoding/hex"
 	"fmt"
 	"math/big"
 	"strings"
@@ -543,7 +544,7 @@ func (w *world) restartsOnCorruptedDisk() {
 		classes := [][]target{nil, valLeaves, chainRecs, accLeaves, stkLeaves}
 		ci := c.Weighted("restart-record-class", []int{1, 6, 4, 3, 2})
 		typ, desc, label := "none", "nothing corrupted (control)", "none"
-		decoderAccepts := true
+		decoderAccepts, bytesInfo := true, ""
 		if ci > 0 && len(classes[ci]) == 0 {
 			ci = 0
 		}
@@ -556,6 +557,7 @@ func (w *world) restartsOnCorruptedDisk() {
 			typ, desc, label = t.typ, t.desc, l
 			accepted := w.corrupt(t.typ, t.orig, mut, l)
 			decoderAccepts = accepted
+			bytesInfo = fmt.Sprintf(" | record %s | corrupted %s", clip(hex.EncodeToString(t.orig), 500), clip(hex.EncodeToString(mut), 500))
 			if err := disk.Put(t.key, t.wrap(mut)); err != nil {
 				panic(err)
 			}
@@ -564,7 +566,7 @@ func (w *world) restartsOnCorruptedDisk() {
 		} else {
 			r.Logf("-- restart control: image of block %d unmodified", head.NumberU64())
 		}
-		out := w.restartAndRead(disk, typ, desc, label, decoderAccepts, head, last)
+		out := w.restartAndRead(disk, typ, desc, label, bytesInfo, decoderAccepts, head, last)
 		r.Logf("  restart outcome: %s", out)
 		r.FP("restart", typ, label, out)
 		r.Count("restart."+strings.SplitN(out, ":", 2)[0], 1)
@@ -576,7 +578,7 @@ func (w *world) restartsOnCorruptedDisk() {
 
 // restartAndRead opens the node and drives the read accessors and one import; it returns a
 // short outcome. Each step runs on a helper goroutine (a logging.Crit ends the step).
-func (w *world) restartAndRead(disk *simdisk.Disk, typ, desc, label string, decoderAccepts bool, head, last *types.Block) string {
+func (w *world) restartAndRead(disk *simdisk.Disk, typ, desc, label, bytesInfo string, decoderAccepts bool, head, last *types.Block) string {
 	what := fmt.Sprintf("node on the image with the %s corrupted (%s)", desc, label)
 	im, refused := w.openNode(disk, typ, what)
 	if im == nil {
@@ -595,6 +597,8 @@ func (w *world) restartAndRead(disk *simdisk.Disk, typ, desc, label string, deco
 			// corrupted bytes (the reader's error path is what lets the node crash, wherever the
 			// half-read value is used later), or it ACCEPTS them (a well-formed record holding a
 			// different value: the node computes on it). The panicking function is in the detail.
+			w.tail = bytesInfo
+			defer func() { w.tail = "" }()
 			fam, verdict := "rejected-record-panic:", "its decoder refuses"
 			if decoderAccepts {
 				fam, verdict = "accepted-record-panic:", "its decoder accepts"
